@@ -289,7 +289,7 @@ theorem finishC_spec (tr : List W32 → List UInt8 → List W32) (s0 : List W32)
   have hsetlen : (buf.set (m.length % 64) 0x80).length = 64 := by rw [List.length_set]; exact hbl
   have hsz : m.length * 8 = 8 * m.length := Nat.mul_comm _ _
   unfold finishC
-  simp only [processC]
+  simp only [processC, lengthBitsC]
   by_cases hcase : m.length % 64 ≤ 55
   · obtain ⟨h1, h2, h3, h4⟩ := padLoop_low tr (55 - m.length % 64) 128 { buf := buf.set (m.length % 64) 0x80, state := st, size := m.length }
       (m.length % 64 + 1) (by omega) (by omega) hsetlen
